@@ -237,7 +237,6 @@ theorem C09_default_nearest_scope (fb0 : Target) (pre : List (Step Pat)) (s : St
   | cons t ts ih =>
     obtain ⟨p, g, dt, c, ht⟩ := hpost t (by simp)
     rw [List.foldl_cons, ht]
-    simp only [fallback, effDefault]
     exact ih (fun x hx => hpost x (by simp [hx]))
 
 /-- … and the app's default when no scope on the path has one -/
@@ -301,6 +300,69 @@ theorem C09_405 (matchPat : Matcher Pat) (app : App Pat) (req : Req)
     rw [he, finalFallback_last_resource _ hl hn]
     simp [effDefault]
 
+
+/-! ## registration order -/
+
+/-- **C09_append_stable**: registering further services *after* the existing ones never changes how
+a request is answered that some existing top-level service matches (earlier registrations win). -/
+theorem C09_append_stable (matchPat : Matcher Pat) (app : App Pat) (req : Req)
+    (extra : List (Node Pat))
+    (h : ∃ c ∈ app.children, ¬ Rejects matchPat req c (St.init app)) :
+    routeApp matchPat { app with children := app.children ++ extra } req =
+      routeApp matchPat app req := by
+  unfold routeApp
+  have hi : St.init { app with children := app.children ++ extra } = St.init app := rfl
+  simp only [hi]
+  rw [routeList_append]
+  cases hl : routeList matchPat req app.children (St.init app) (effDefault app.dflt .notFound) 0 with
+  | some o => rfl
+  | none =>
+    obtain ⟨c, hc, hr⟩ := h
+    exact absurd (routeList_eq_none.1 hl c hc) hr
+
+/-- … and a request no existing top-level service matches is routed among the new ones exactly as
+if they were alone, except that their indices continue the numbering -/
+theorem C09_append_fallthrough (matchPat : Matcher Pat) (app : App Pat) (req : Req)
+    (extra : List (Node Pat))
+    (h : ∀ c ∈ app.children, Rejects matchPat req c (St.init app)) :
+    routeApp matchPat { app with children := app.children ++ extra } req =
+      match routeList matchPat req extra (St.init app) (effDefault app.dflt .notFound)
+          app.children.length with
+      | some o => o
+      | none => ⟨effDefault app.dflt .notFound, St.init app⟩ := by
+  unfold routeApp
+  have hi : St.init { app with children := app.children ++ extra } = St.init app := rfl
+  simp only [hi]
+  rw [routeList_append, routeList_eq_none.2 h]
+  simp only [Nat.zero_add]
+  cases routeList matchPat req extra (St.init app) (effDefault app.dflt .notFound)
+    app.children.length <;> rfl
+
+/-- **C09_later_irrelevant**: once a service matches, nothing registered after it on the same level
+is ever consulted — the outcome is that service's answer whatever follows it. -/
+theorem C09_later_irrelevant (matchPat : Matcher Pat) (app : App Pat) (req : Req)
+    (pre : List (Node Pat)) (c : Node Pat) (post post' : List (Node Pat)) (len : Nat) (caps : List Cap)
+    (hch : app.children = pre ++ c :: post)
+    (hpre : ∀ c' ∈ pre, Rejects matchPat req c' (St.init app))
+    (hm : Matches matchPat req c (St.init app) len caps) :
+    routeApp matchPat app req = routeApp matchPat { app with children := pre ++ c :: post' } req := by
+  have hi : St.init { app with children := pre ++ c :: post' } = St.init app := rfl
+  unfold routeApp
+  simp only [hi]
+  rw [routeList_eq_some.2 ⟨pre, c, post, len, caps, hch, hpre, hm, rfl⟩,
+    routeList_eq_some.2 ⟨pre, c, post', len, caps, rfl, hpre, hm, rfl⟩]
+
+/-- **C09_route_sugar**: `App::route(path, route)` registers a resource guarded by the route's
+guards whose only route is unguarded — once entered it always reaches the handler; a guard
+mismatch makes the router pass on to later registrations instead of answering 405. -/
+theorem C09_route_sugar (matchPat : Matcher Pat) (req : Req) (pat : Pat) (r : Route) (st : St)
+    (inh : Target) :
+    serve matchPat req (routeSugar pat r) st inh = ⟨.handler r.handler, st⟩ ∧
+    (¬ GuardsOk req r.guards → Rejects matchPat req (routeSugar pat r) st) := by
+  constructor
+  · simp [routeSugar, serve, firstRoute, evalAll]
+  · intro hg len caps hm
+    exact hg hm.2
 
 /-! ## segment boundaries -/
 
